@@ -754,7 +754,7 @@ pub fn c14(tier: Tier) -> i32 {
         res.stats.add(&format!("send_sync_probe_{}", p), 1);
     }
     let report = Report::new(
-        "rounds of 2-16 threads started at a barrier; each thread runs 10-40 operations drawn from: build() of hot keys shared by all threads, of cold keys unique to the round and of failing keys; build_uncached(); complete scans on one shared Scanner; scans on the shared Scanner interrupted by a yield; with yields and 50 us sleeps injected between operations. Every result is compared with a table computed single-threaded with build_uncached() beforehand (token streams on probe inputs in every mode; Ok/Err). Hook H3 records the order in which the cache lock was taken: distinct_nontrivial counts the distinct shapes of 8 consecutive lock acquisitions that involve at least two threads (thread identities renamed in order of first occurrence, with the hit/miss pattern). Rounds run in worker processes of 10 rounds each: a worker killed by a signal (memory corruption) is attributed to the round it was running, and a worker that completes nothing for 120 s with all its tasks blocked in a futex wait is reported as a deadlock (otherwise a slow worker is inconclusive). Scanner: Send + Sync is a compile-time probe built by the driver (src/bin/probe_send_sync.rs). Thorough adds ThreadSanitizer and Miri runs of the same workload.",
+        "rounds of 2-16 threads started at a barrier; each thread runs 10-40 operations drawn from: build() of hot keys shared by all threads, of cold keys unique to the round and of failing keys; build_uncached(); complete scans on one shared Scanner; scans on the shared Scanner interrupted by a yield; with yields and 50 us sleeps injected between operations. Every result is compared with a table computed single-threaded with build_uncached() beforehand (token streams on probe inputs in every mode; Ok/Err). Hook H3 records the order in which the cache lock was taken: distinct_nontrivial counts the distinct shapes of 8 consecutive lock acquisitions that involve at least two threads (thread identities renamed in order of first occurrence, with the hit/miss pattern). Rounds run in worker processes of 10 rounds each: a worker killed by a signal (memory corruption) is attributed to the round it was running, and a worker that completes nothing for 120 s with all its tasks blocked in a futex wait is reported as a deadlock (otherwise a slow worker is inconclusive). Scanner: Send + Sync is a compile-time probe built by the driver (/verif/probe_send_sync, a separate crate). Thorough adds ThreadSanitizer and Miri runs of the same workload.",
     )
     .floor("rounds", 200)
     .floor("concurrent_ops", 20_000)
